@@ -1141,8 +1141,10 @@ class XsdGroup(XsdComponent, MutableSequence[ModelParticleType],
             if isinstance(name, int):
                 if not children:
                     text = text + value if text is not None else value
-                else:
+                elif children[-1].tail is None:
                     children[-1].tail = value
+                else:
+                    children[-1].tail += value
                 cdata_index += 1
                 continue
 
@@ -1201,8 +1203,9 @@ class XsdGroup(XsdComponent, MutableSequence[ModelParticleType],
             reason = _("wrong content type {!r}").format(type(obj.content))
             context.validation_error(validation, self, reason, elem)
 
-        if not self.mixed and text and text.strip() and self and \
-                (len(self) > 1 or not isinstance(self[0], XsdAnyElement)):
+        if not self.mixed and self and \
+                (len(self) > 1 or not isinstance(self[0], XsdAnyElement)) and \
+                (text and text.strip() or any(e.tail and e.tail.strip() for e in children)):
             reason = _("character data between child elements not allowed")
             context.validation_error(validation, self, reason, elem)
 
